@@ -14,7 +14,6 @@ from __future__ import annotations
 import snowflake.connector.errors
 from snowflake.connector.cursor import DictCursor, SnowflakeCursor
 
-from obligations.C02 import _norm_emitted
 from vf.session import instance, std_engine
 from vf.stubs import StubTable
 
@@ -64,6 +63,8 @@ PRIORS = [
 
 
 def _observe(si: int, pi: int, as_dict: bool, same_cursor: bool, fresh: bool):
+    from obligations.C02 import _norm_emitted  # imported late: C02 registers obligations of modules that import this one
+
     sql = SUBJECTS[si]
     label, own, other = PRIORS[pi]
     eng = std_engine()
